@@ -8,7 +8,7 @@ Writes the outcome into seeded/<id>/meta.json ("official_path") and prints one l
 import json, os, subprocess, sys
 HERE = os.path.dirname(os.path.dirname(os.path.abspath(__file__)))
 ids = sys.argv[1:] or sorted(os.listdir(os.path.join(HERE, "seeded")))
-env = dict(os.environ, VSDS_REPLAY_DIR="/tmp/vsds_seed_replays", VSDS_EVIDENCE_DIR="/tmp/vsds_seed_evidence")
+env = dict(os.environ, VSDS_REPLAY_DIR="/tmp/vsds_official_replays", VSDS_EVIDENCE_DIR="/tmp/vsds_official_evidence")
 bad = 0
 for i in ids:
     d = os.path.join(HERE, "seeded", i)
